@@ -71,6 +71,10 @@ type Request struct {
 
 	keepBodyBuffer bool
 
+	// bodyStreamUnread is set when the streamed request body was closed
+	// before the whole framed body had been read from the connection.
+	bodyStreamUnread bool
+
 	// Used by Server to indicate the request was received on a HTTPS endpoint.
 	// Client/HostClient shouldn't use this field but should depend on the uri.scheme instead.
 	isTLS bool
@@ -1294,6 +1298,7 @@ func (req *Request) Reset() {
 
 func (req *Request) resetSkipHeader() {
 	req.ResetBody()
+	req.bodyStreamUnread = false
 	req.uri.Reset()
 	req.parsedURI = false
 	req.uriParseErr = nil
@@ -2397,6 +2402,9 @@ func (req *Request) closeBodyStream() error {
 		err = bsc.Close()
 	}
 	if rs, ok := req.bodyStream.(*requestStream); ok {
+		// Remember whether a part of the framed body was left on the
+		// connection: the server must not reuse the connection then.
+		req.bodyStreamUnread = !rs.fullyRead()
 		releaseRequestStream(rs)
 	}
 	req.bodyStream = nil
